@@ -102,6 +102,12 @@ Update(i) == /\ Can(1) /\ IsL(i) /\ (Affine => slot[i].fresh)
                 /\ mem' = r.m
                 /\ slot' = [slot EXCEPT ![i] = [@ EXCEPT !.arr = r.arr, !.len = @ + 1, !.g.fields = Append(@, nf + 1)]]
              /\ nf' = nf + 1 /\ UNCHANGED <<nh, nc>> /\ Step("Update", i, i, nf + 1)
+\* l.UpdateContext(func(c) { return c.Reset().Str(...) }): the logger moves to a FRESH array holding only the new field;
+\* whoever still shares the old array (Level / Sample / Hook copies, value copies) keeps what it had
+UpdateReset(i) == /\ Can(1) /\ IsL(i) /\ (Affine => slot[i].fresh)
+                  /\ mem' = Append(mem, Pad(<<nf + 1>>, Cap))
+                  /\ slot' = [slot EXCEPT ![i] = [@ EXCEPT !.arr = Len(mem) + 1, !.len = 1, !.g.fields = <<nf + 1>>]]
+                  /\ nf' = nf + 1 /\ UNCHANGED <<nh, nc>> /\ Step("UpdateReset", i, i, nf + 1)
 \* the value goes out of scope
 Drop(i) == /\ Can(1) /\ i # 1 /\ slot[i] # None /\ slot' = [slot EXCEPT ![i] = None]
            /\ UNCHANGED <<mem, nf, nh, nc>> /\ Step("Drop", i, i, 0)
@@ -112,7 +118,7 @@ Emit(i) == /\ Can(1) /\ IsL(i) /\ UNCHANGED <<slot, mem, nf, nh, nc>>
 
 Next == \E i, j \in 1..S :
           \/ With(i, j) \/ Field(i, j) \/ GoCtx(i, j) \/ CtxReset(i, j) \/ ToLogger(i, j) \/ Hook(i, j) \/ Output(i, j)
-          \/ (\E x \in {1, 2} : Level(i, j, x)) \/ Update(i) \/ Drop(i) \/ Emit(i)
+          \/ (\E x \in {1, 2} : Level(i, j, x)) \/ Update(i) \/ UpdateReset(i) \/ Drop(i) \/ Emit(i)
 Spec == Init /\ [][Next]_vars
 View == <<slot, mem, nf, nh, nc, Len(prog)>>
 
